@@ -215,6 +215,14 @@ func scenC19K(w *vsim.World, spec *vsim.Spec) {
 		}
 		return string(b)
 	}
+	// cold: keepstore has not talked to the remote clusters yet; its proxy builds the API and Keep clients
+	// itself (discovery document, keep_services/accessible) over the simulated network (rule R10)
+	keepclient.VerifResetProcessCaches()
+	defer keepclient.VerifResetProcessCaches()
+	cold := w.Choose("cold-remote-clients", 3) == 2
+	if cold {
+		w.Probe("cold-remote-clients")
+	}
 	var secrets []string // every unsalted secret the workload creates
 	var wire []string
 	// two clients at once, remote Keep answering 503 now and then, the proxy's Keep clients retrying
@@ -230,11 +238,27 @@ func scenC19K(w *vsim.World, spec *vsim.Spec) {
 			all += k + ": " + strings.Join(vs, ",") + "\n"
 		}
 		all += string(r.Body)
-		wire = append(wire, all)
+		apiHost := !strings.HasPrefix(r.Host, "keep.")
+		if !apiHost {
+			wire = append(wire, all)
+		}
 		for _, s := range secrets {
 			if strings.Contains(all, s) {
 				w.ViolationSig("c19k/unsalted-secret-on-the-wire", "keepstore-remote-proxy", "keepstore forwarded a request to %s that contains the caller's unsalted secret: %q", r.Host, all)
 			}
+		}
+		if apiHost {
+			// the remote cluster's API server, asked by keepstore's own clients on first contact
+			w.Probe("remote-api-request")
+			cl := strings.SplitN(r.Host, ".", 2)[0]
+			switch {
+			case strings.HasPrefix(r.Path, "/discovery/"):
+				return &vsim.NetReply{Status: 200, Body: []byte(`{"defaultCollectionReplication":1,"blobSignatureTtl":1209600}`), Latency: time.Millisecond}
+			case strings.HasSuffix(r.Path, "/keep_services/accessible"):
+				lj, _ := json.Marshal(map[string]interface{}{"items": []map[string]interface{}{{"uuid": cl + "-bi6l4-000000000000000", "service_host": "keep." + cl + ".example", "service_port": 443, "service_ssl_flag": true, "service_type": "proxy"}}})
+				return &vsim.NetReply{Status: 200, Body: lj, Latency: time.Duration(1+w.Choose("lat", 20)) * time.Millisecond}
+			}
+			return &vsim.NetReply{Status: 404, Body: []byte("{}"), Latency: time.Millisecond}
 		}
 		if concurrent {
 			// with interleaved requests a forwarded message is not attributed to one request: its credential
@@ -262,7 +286,13 @@ func scenC19K(w *vsim.World, spec *vsim.Spec) {
 	// the remote clusters' Keep services, as service discovery would have found them
 	rtr := node.h.(*router)
 	rtr.remoteProxy.clients = map[string]*keepclient.KeepClient{}
+	if cold {
+		w.DefaultTransport = net
+	}
 	for _, r := range remotes {
+		if cold {
+			break
+		}
 		kc := &keepclient.KeepClient{Arvados: &arvadosclient.ArvadosClient{ApiServer: r + ".example", ApiToken: "xxx"}, Want_replicas: 1, Retries: retries, HTTPClient: net}
 		lj, _ := json.Marshal(map[string]interface{}{"items": []map[string]interface{}{{"uuid": r + "-bi6l4-000000000000000", "service_host": "keep." + r + ".example", "service_port": 443, "service_ssl_flag": true, "service_type": "proxy"}}})
 		if err := kc.LoadKeepServicesFromJSON(string(lj)); err != nil {
@@ -341,7 +371,7 @@ func scenC19K(w *vsim.World, spec *vsim.Spec) {
 				}
 			})
 		}
-		w.Run(nil)
+		w.Run(func() bool { return done2 == 2 })
 		if w.Failed() || w.Truncated() {
 			return
 		}
@@ -388,7 +418,7 @@ func scenC19K(w *vsim.World, spec *vsim.Spec) {
 		}
 		done = true
 	})
-	w.Run(nil)
+	w.Run(func() bool { return done })
 	if w.Failed() || w.Truncated() {
 		return
 	}
